@@ -233,10 +233,28 @@ def run(ctx):
     rreg = [g for g in registrations(dor, prog) if g["cb"] is not None and unparse(g["cb"]) == "self." + hsr.name]
     okr = bool(rreg) and tbl is not None
     if okr:
-        a = rreg[0]["call"].args[1] if len(rreg[0]["call"].args) > 1 else None
-        srcs = [a] if a is not None and not isinstance(a, ast.Name) else [x.value for x in walk_body_shallow(dor.body) if isinstance(x, ast.Assign)
-                                                                         and a is not None and any(unparse(t) == a.id for t in x.targets)]
-        okr = a is not None and bool(srcs) and all(dor.first_param() in {n.id for n in ast.walk(s_) if isinstance(n, ast.Name)} for s_ in srcs)
+        a = rreg[0]["cb_args"][0] if rreg[0]["cb_args"] else None
+        same_eb = not rreg[0]["eb_args"] or unparse(rreg[0]["eb_args"][0]) == unparse(a) if a is not None else False
+        p0 = dor.first_param()
+        if a is not None and isinstance(a, ast.Name):
+            # every way the table gets content mentions the retried list: a definition built from it, or entries stored
+            # under a condition on it (an empty literal is just the start of such a loop)
+            cdo = ctx.cfg(dor)
+            srcs, stores = [], []
+            for n_ in cdo.nodes:
+                st_ = n_.stmt
+                if n_.kind == "stmt" and isinstance(st_, ast.Assign):
+                    for t in st_.targets:
+                        if isinstance(t, ast.Name) and t.id == a.id:
+                            srcs.append(st_.value)
+                        elif isinstance(t, ast.Subscript) and isinstance(t.value, ast.Name) and t.value.id == a.id:
+                            stores.append(n_)
+            nonempty = [s_ for s_ in srcs if not (isinstance(s_, ast.Dict) and not s_.keys) and not (isinstance(s_, ast.Call) and call_name(s_) == "dict" and not s_.args)]
+            okr = same_eb and bool(srcs) and all(p0 in names_in(s_) for s_ in nonempty) and all(
+                any(t.kind == "test" and p0 in names_in(t.stmt.test) for t, lab in cdo.control_deps_transitive(n_.id)) for n_ in stores) and (
+                bool(nonempty) or bool(stores))
+        else:
+            okr = a is not None and same_eb and p0 in names_in(a)
     r.check(okr, "%s#retry-table-of-this-attempt" % dor.qname,
             "the response handler of a retry is given the payload table of the original batch (`%s`): if the retry fails as a whole, "
             "every payload of the batch is retried, including those already acknowledged" % tbl, where(dor, dor.node),
@@ -312,8 +330,8 @@ def run(ctx):
             if any(call_name(c) == "send_produce_request" for c in n.calls()):
                 inc = [m.id for m in cf2.nodes if m.kind == "stmt" and isinstance(m.stmt, ast.AugAssign) and self_attr(
                     m.stmt.target) == "_req_attempts" and isinstance(m.stmt.op, ast.Add)]
-                regn = [m.id for m in cf2.nodes if any(call_name(c) in ("addBoth", "addCallbacks", "addCallback", "addErrback") and c.args and
-                                                      unparse(c.args[0]) == "self." + hsr.name for c in m.calls())]
+                regn = [cf2.containing(g["call"])[0].id for g in registrations(f, prog) if any(
+                    h_ is not None and unparse(h_) == "self." + hsr.name for h_ in (g["cb"], g["eb"])) and cf2.containing(g["call"])]
                 r.check(bool(inc) and bool(regn) and all(cf2.dominates(inc, x) for x in regn), "%s#attempt-counted-before-handler" % f.qname,
                         "the response handler is attached before the attempt is counted (it runs at once when the client's Deferred has "
                         "already failed and then reads a stale attempt count)", where(f, n.stmt),
